@@ -320,6 +320,62 @@ class Interp:
         finally:
             self.depth -= 1
 
+    _FN_INDEX = None
+
+    @classmethod
+    def _fn_index(cls):
+        """name -> python functions of that name defined in the repository packages (module level and methods)."""
+        import sys
+        if cls._FN_INDEX is None:
+            idx = {}
+            for mname, mod in list(sys.modules.items()):
+                if mod is None or not (mname.split('.')[0] in ('t4_geom_convert', 'MIP')):
+                    continue
+                for obj in list(vars(mod).values()):
+                    if isinstance(obj, types.FunctionType) and obj.__module__ == mname:
+                        idx.setdefault(obj.__name__, []).append(obj)
+                    elif isinstance(obj, type) and obj.__module__ == mname:
+                        for v in vars(obj).values():
+                            v = getattr(v, '__func__', v)
+                            if isinstance(v, types.FunctionType):
+                                idx.setdefault(v.__name__, []).append(v)
+            cls._FN_INDEX = idx
+        return cls._FN_INDEX
+
+    def reaches_hook(self, f):
+        fn = getattr(f, '__func__', f)
+        if not isinstance(fn, types.FunctionType) or fn.__module__.split('.')[0] not in ('t4_geom_convert', 'MIP'):
+            return False
+        names = getattr(self, '_hook_names', None)
+        if names is None:
+            names = self._hook_names = {getattr(h, '__name__', None) for h in self.hooks
+                                        if isinstance(getattr(h, '__func__', h), types.FunctionType)}
+            self._reach_memo = {}
+        memo = self._reach_memo
+        idx = self._fn_index()
+
+        def go(g, depth):
+            code = g.__code__
+            if code in memo:
+                return memo[code]
+            memo[code] = False              # recursion guard
+            used = set(code.co_names)
+            for c in code.co_consts:        # nested code objects (comprehensions, lambdas, inner functions)
+                if isinstance(c, types.CodeType):
+                    used |= set(c.co_names)
+            r = bool(used & names)
+            if not r and depth < 6:
+                for n in used:
+                    for h in idx.get(n, ()):
+                        if h is not g and go(h, depth + 1):
+                            r = True
+                            break
+                    if r:
+                        break
+            memo[code] = r
+            return r
+        return go(fn, 0)
+
     def call(self, f, args, kw):
         hook = self.hooks.get(getattr(f, '__func__', f)) if _hashable(f) else None
         if hook is not None:
@@ -339,6 +395,10 @@ class Interp:
         sym = anysym(args) or anysym(list(kw.values()))
         selfobj = getattr(f, '__self__', None)
         forced = _hashable(f) and getattr(f, '__func__', f) in self.force
+        if not forced and self.hooks and self.reaches_hook(f):
+            # a repository function that may (transitively, by name) call a hooked function must not run natively:
+            # the hook -- the callee's contract -- would be bypassed by the real callee
+            forced = True
         if not forced and not sym and not (selfobj is not None and not isinstance(selfobj, types.ModuleType)
                                            and anysym(selfobj) and inspect.ismethod(f)):
             return self.native(f, args, kw)
